@@ -28,7 +28,7 @@
 #include "varintBitstream.h"
 
 #define NIN 6           /* shared input arrays */
-#define NEXTRA_OPS 8
+#define NEXTRA_OPS 9
 #define NOPS (NCODECS + NEXTRA_OPS)
 #define MAXT 16
 #define INLEN 700
@@ -154,6 +154,15 @@ static uint64_t run_op(int op, int in, uint8_t *scratch, uint64_t *outbuf) {
         size_t used = varintFloatDecode(scratch, fn, o);
         digest_u64(&d, used);
         digest_bytes(&d, o, fn * 8);
+        break;
+    }
+    case 8: { /* adaptive analysis of the shared > 10000-element input (sampled uniqueness) */
+        varintAdaptiveDataStats st;
+        varintAdaptiveAnalyze(BIG, BIGN - (size_t)in, &st);
+        digest_u64(&d, st.uniqueCount);
+        digest_u64(&d, st.minValue ^ st.maxValue ^ st.avgDelta);
+        digest_u64(&d, (uint64_t)varintAdaptiveSelectEncoding(&st));
+        digest_u64(&d, varintAdaptiveCountUnique(BIG, BIGN - 7 * (size_t)in));
         break;
     }
     case 5: { /* shared prebuilt dictionary through const entry points */
@@ -284,9 +293,9 @@ int main(int argc, char **argv) {
         varintDictBuild(SHARED_DICT[i], IN[i][0], INN[i]);
     }
     BIG = malloc(BIGN * 8);
-    for (size_t k = 0; k < BIGN; k++) BIG[k] = (rng_next(&r) % 1400) * 977 + 5; /* unique ratio near the 0.15 guard, unsorted */
+    for (size_t k = 0; k < BIGN; k++) BIG[k] = (rng_next(&r) % 5000) * 977 + 5; /* many distinct values: the sampled estimate depends on which elements are sampled */
     for (int op = 0; op < (int)NOPS; op++) {
-        static const char *const en[NEXTRA_OPS] = {"scalar.tagged+external", "scalar.chained", "scalar.split-macros", "scalar.inplace-add", "float", "dict.shared-const", "packed.private", "bitstream.private"};
+        static const char *const en[NEXTRA_OPS] = {"scalar.tagged+external", "scalar.chained", "scalar.split-macros", "scalar.inplace-add", "float", "dict.shared-const", "packed.private", "bitstream.private", "adaptive.analysis-over-10000"};
         OPNAME[op] = op < (int)NCODECS ? CODECS[op].name : en[op - (int)NCODECS];
     }
     /* sequential reference results, before any thread exists */
